@@ -39,6 +39,9 @@ int verif_is_symbolic(std::uint64_t) { return 0; }
 void verif_abort(void) { std::printf("VERIF-ABORT\n"); std::fflush(stdout); std::_Exit(6); }
 bool verif_known(const char*, bool) { return false; }
 void verif_depth_limit(std::uint64_t) {}
+void verif_watch(const void*, std::size_t, const char*) {}
+void verif_lock_name(const void*, const char*) {}
+void verif_context(const char*) {}
 void verif_uf(const char* n, const void*, std::size_t, void*, std::size_t) { std::printf("REPLAY-MISMATCH verif_uf %s reached natively\n", n); std::fflush(stdout); std::_Exit(4); }
 }
 int main(int argc, char** argv) {
